@@ -303,6 +303,944 @@ theorem pull_spec (active : Bool) (raw : List (Item N)) (st : IterSt N) : PullSp
           exact cont { st with vis := some V', lastErr := true } heq ⟨[], by simp, by simp⟩ (fun _ => rfl)
             (fun h => absurd h hno) (hvs _ rfl (by rw [hc]; intro h; cases h)) (fun _ h => by simp at h)
 
+/-! ### the producer/consumer loop -/
+
+section loop
+variable (nodeF : Option (Vis N) → N → List VOut × Option (Vis N)) (active : Bool) (policy : Nat → Nat → Bool)
+
+theorem iterLoop_succ (steps : Nat) (raw : List (Item N)) (pending : List (Option N)) (st : IterSt N) :
+    iterLoop nodeF active policy (steps + 1) raw pending st =
+      (match iterStep nodeF active policy raw pending st with
+       | none => st
+       | some (raw', pending', st') => iterLoop nodeF active policy steps raw' pending' st') := rfl
+
+/-- the moves of the loop -/
+inductive StepKind (raw : List (Item N)) (pending : List (Option N)) (st : IterSt N) :
+    Option (List (Item N) × List (Option N) × IterSt N) → Prop
+  | pullSome (c : Option N) (raw' : List (Item N)) (st' : IterSt N) :
+      pull active raw st = (some c, raw', st') → StepKind raw pending st (some (raw', pending ++ [c], st'))
+  | pullNone (x : List (Item N)) (st' : IterSt N) :
+      pull active raw st = (none, x, st') → StepKind raw pending st (some ([], pending, st'))
+  | done : pending = [] → raw = [] → StepKind raw pending st none
+  | graphErr (p' : List (Option N)) : pending = none :: p' →
+      StepKind raw pending st (some (raw, p', { st with acc := st.acc ++ [[.err .other]] }))
+  | popShared (n : N) (p' : List (Option N)) : active = true → pending = some n :: p' →
+      StepKind raw pending st (some (raw, p', { st with vis := (nodeF st.vis n).2, acc := st.acc ++ [(nodeF st.vis n).1] }))
+  | popFresh (n : N) (p' : List (Option N)) : active = false → pending = some n :: p' →
+      StepKind raw pending st (some (raw, p', { st with acc := st.acc ++ [(nodeF none n).1] }))
+
+theorem iterStep_kind (raw : List (Item N)) (pending : List (Option N)) (st : IterSt N) :
+    StepKind nodeF active raw pending st (iterStep nodeF active policy raw pending st) := by
+  unfold iterStep
+  split
+  · rcases hp : pull active raw st with ⟨res, raw', st'⟩
+    cases res with
+    | some c => exact .pullSome c raw' st' hp
+    | none => exact .pullNone raw' st' hp
+  · rename_i hc
+    cases pending with
+    | nil =>
+      refine .done rfl ?_
+      cases raw with
+      | nil => rfl
+      | cons a l => simp at hc
+    | cons c p' =>
+      cases c with
+      | none => exact .graphErr p' rfl
+      | some n =>
+        cases active with
+        | true => exact .popShared n p' rfl rfl
+        | false => exact .popFresh n p' rfl rfl
+
+/-- what survives every step: the accumulated results, a remembered error, the visited set -/
+def MonoRel (st st' : IterSt N) : Prop :=
+  (∃ more, st'.acc = st.acc ++ more) ∧ (st.lastErr = true → st'.lastErr = true) ∧
+  (active = false → st'.vis = st.vis) ∧
+  (active = true → ∀ V, st.vis = some V → ∃ V', st'.vis = some V' ∧ SubVis V V')
+
+theorem MonoRel.refl (st : IterSt N) : MonoRel active st st :=
+  ⟨⟨[], by simp⟩, id, fun _ => rfl, fun _ V hV => ⟨V, hV, SubVis.refl V⟩⟩
+
+theorem MonoRel.trans {a b c : IterSt N} (h1 : MonoRel active a b) (h2 : MonoRel active b c) : MonoRel active a c := by
+  obtain ⟨⟨m1, e1⟩, l1, v1, s1⟩ := h1
+  obtain ⟨⟨m2, e2⟩, l2, v2, s2⟩ := h2
+  refine ⟨⟨m1 ++ m2, by rw [e2, e1, List.append_assoc]⟩, fun h => l2 (l1 h), fun h => by rw [v2 h, v1 h], ?_⟩
+  intro ha V hV
+  obtain ⟨V1, hV1, hs1⟩ := s1 ha V hV
+  obtain ⟨V2, hV2, hs2⟩ := s2 ha V1 hV1
+  exact ⟨V2, hV2, hs1.trans hs2⟩
+
+theorem pull_mono (raw : List (Item N)) (st : IterSt N) : MonoRel active st (pull active raw st).2.2 := by
+  obtain ⟨⟨bad, hb, _⟩, p2, p3, p4, _⟩ := pull_spec active raw st
+  refine ⟨⟨bad, hb⟩, p2, fun h => p3 (Or.inl h), ?_⟩
+  intro ha V hV
+  obtain ⟨V', hV', hs, _⟩ := p4 ha V hV
+  exact ⟨V', hV', hs⟩
+
+theorem step_mono (hsh : ∀ V n, ∃ V', (nodeF (some V) n).2 = some V' ∧ SubVis V V')
+    {raw : List (Item N)} {pending : List (Option N)} {st : IterSt N}
+    {raw' : List (Item N)} {pending' : List (Option N)} {st' : IterSt N}
+    (h : iterStep nodeF active policy raw pending st = some (raw', pending', st')) : MonoRel active st st' := by
+  have hk := iterStep_kind nodeF active policy raw pending st
+  rw [h] at hk
+  cases hk with
+  | pullSome c _ _ hp => have := pull_mono active raw st; rw [hp] at this; exact this
+  | pullNone x _ hp => have := pull_mono active raw st; rw [hp] at this; exact this
+  | graphErr p' _ => exact ⟨⟨_, rfl⟩, id, fun _ => rfl, fun _ V hV => ⟨V, hV, SubVis.refl V⟩⟩
+  | popShared n p' ha _ =>
+    subst ha
+    refine ⟨⟨_, rfl⟩, id, by intro h; exact absurd h (by decide), ?_⟩
+    intro _ V hV
+    obtain ⟨V1, hV1, hs1⟩ := hsh V n
+    exact ⟨V1, by simp [hV, hV1], hs1⟩
+  | popFresh n p' ha _ => subst ha; exact ⟨⟨_, rfl⟩, id, fun _ => rfl, by intro h; exact absurd h (by decide)⟩
+
+theorem iterLoop_mono (hsh : ∀ V n, ∃ V', (nodeF (some V) n).2 = some V' ∧ SubVis V V') :
+    ∀ (steps : Nat) (raw : List (Item N)) (pending : List (Option N)) (st : IterSt N),
+      MonoRel active st (iterLoop nodeF active policy steps raw pending st) := by
+  intro steps
+  induction steps with
+  | zero =>
+    intro raw pending st
+    show MonoRel active st (if raw.isEmpty && pending.isEmpty then st else { st with acc := st.acc ++ [[.err .abort]] })
+    split
+    · exact MonoRel.refl active st
+    · exact ⟨⟨_, rfl⟩, id, fun _ => rfl, fun _ V hV => ⟨V, hV, SubVis.refl V⟩⟩
+  | succ steps ih =>
+    intro raw pending st
+    rw [iterLoop_succ]
+    cases hs : iterStep nodeF active policy raw pending st with
+    | none => exact MonoRel.refl active st
+    | some r =>
+      obtain ⟨raw', pending', st'⟩ := r
+      exact (step_mono nodeF active policy hsh hs).trans active (ih raw' pending' st')
+
+/-! #### provenance of `true` -/
+
+theorem NodeSpec.hsh {nodeF : Option (Vis N) → N → List VOut × Option (Vis N)} (hN : NodeSpec sys I nodeF) :
+    ∀ V n, ∃ V', (nodeF (some V) n).2 = some V' ∧ SubVis V V' := by
+  intro V n
+  obtain ⟨V', h1, h2, _⟩ := hN.shared V n
+  exact ⟨V', h1, h2⟩
+
+theorem iterLoop_true (hN : NodeSpec sys I nodeF) (Src : N → Prop) :
+    ∀ (steps : Nat) (raw : List (Item N)) (pending : List (Option N)) (st : IterSt N),
+      (∀ it ∈ raw, it.cond = .tt → ∀ n, it.child = some n → Src n) → (∀ n, some n ∈ pending → Src n) →
+      ∀ s ∈ (iterLoop nodeF active policy steps raw pending st).acc, VOut.ok true false ∈ s →
+        s ∈ st.acc ∨ ∃ n, Src n ∧ D sys I [] n := by
+  intro steps
+  induction steps with
+  | zero =>
+    intro raw pending st _ _ s hs ht
+    have hs' : s ∈ (if raw.isEmpty && pending.isEmpty then st else { st with acc := st.acc ++ [[VOut.err VErr.abort]] }).acc := hs
+    split at hs'
+    · exact Or.inl hs'
+    · rcases List.mem_append.mp hs' with h | h
+      · exact Or.inl h
+      · simp at h; subst h; simp at ht
+  | succ steps ih =>
+    intro raw pending st hraw hpend s hs ht
+    have hk := iterStep_kind nodeF active policy raw pending st
+    rw [iterLoop_succ] at hs
+    cases hstep : iterStep nodeF active policy raw pending st with
+    | none => rw [hstep] at hs; exact Or.inl hs
+    | some r =>
+      obtain ⟨raw', pending', st'⟩ := r
+      rw [hstep] at hs hk
+      simp only at hs
+      -- results appended by a pull are tainted `false`s only
+      have pullCase : ∀ (c : Option (Option N)) (x : List (Item N)), pull active raw st = (c, x, st') →
+          (∀ it ∈ raw', it.cond = .tt → ∀ n, it.child = some n → Src n) → (∀ n, some n ∈ pending' → Src n) →
+          s ∈ st.acc ∨ ∃ n, Src n ∧ D sys I [] n := by
+        intro c x hp h1 h2
+        rcases ih raw' pending' st' h1 h2 s hs ht with h | h
+        · obtain ⟨⟨bad, hb, hbad⟩, _⟩ := pull_spec active raw st
+          rw [hp] at hb
+          simp only at hb
+          rw [hb] at h
+          rcases List.mem_append.mp h with h | h
+          · exact Or.inl h
+          · rw [hbad s h] at ht; simp at ht
+        · exact Or.inr h
+      cases hk with
+      | pullSome c _ _ hp =>
+        obtain ⟨_, _, _, _, p5, p6, _⟩ := pull_spec active raw st
+        rw [hp] at p5 p6
+        simp only at p5 p6
+        refine pullCase (some c) raw' hp (fun it hit => hraw it (p5 it hit)) ?_
+        intro n hn
+        rcases List.mem_append.mp hn with h | h
+        · exact hpend n h
+        · simp at h
+          obtain ⟨it, hit, hc, hch⟩ := p6 c rfl
+          exact hraw it hit hc n (by rw [hch, h])
+      | pullNone x _ hp =>
+        exact pullCase none x hp (fun it hit => by cases hit) hpend
+      | graphErr _ hp =>
+        rcases ih raw pending' _ hraw (fun n hn => hpend n (by rw [hp]; exact List.mem_cons_of_mem _ hn)) s hs ht with h | h
+        · rcases List.mem_append.mp h with h | h
+          · exact Or.inl h
+          · simp at h; subst h; simp at ht
+        · exact Or.inr h
+      | popShared n _ _ hp =>
+        rcases ih raw pending' _ hraw (fun m hm => hpend m (by rw [hp]; exact List.mem_cons_of_mem _ hm)) s hs ht with h | h
+        · rcases List.mem_append.mp h with h | h
+          · exact Or.inl h
+          · simp at h; subst h
+            exact Or.inr ⟨n, hpend n (by rw [hp]; simp), hN.tru _ n ht⟩
+        · exact Or.inr h
+      | popFresh n _ _ hp =>
+        rcases ih raw pending' _ hraw (fun m hm => hpend m (by rw [hp]; exact List.mem_cons_of_mem _ hm)) s hs ht with h | h
+        · rcases List.mem_append.mp h with h | h
+          · exact Or.inl h
+          · simp at h; subst h
+            exact Or.inr ⟨n, hpend n (by rw [hp]; simp), hN.tru _ n ht⟩
+        · exact Or.inr h
+
+/-! #### an untainted `false` -/
+
+def Good (st : IterSt N) : Prop := st.lastErr = false ∧ ∀ s ∈ st.acc, VOut.ok false false ∈ s
+
+theorem Good.of_mono {st st' : IterSt N} (h : MonoRel active st st') (hg : Good st') : Good st := by
+  obtain ⟨⟨more, hm⟩, hl, _⟩ := h
+  refine ⟨?_, fun s hs => hg.2 s (by rw [hm]; exact List.mem_append_left _ hs)⟩
+  cases hle : st.lastErr with
+  | false => rfl
+  | true => have h1 := hg.1; rw [hl hle] at h1; cases h1
+
+theorem dead_item_ff {X : List N} {it : Item N} (h : it.cond = .ff) : DeadX sys I X (itemExpr it) := by
+  intro hh
+  unfold itemExpr at hh
+  cases hh with
+  | and hall =>
+    have := hall (.lit it.cond) List.mem_cons_self
+    rw [h] at this
+    cases this with
+    | lit hv => exact hv rfl
+
+theorem dead_item_child {X : List N} {it : Item N} {n : N} (h : it.child = some n)
+    (hd : DeadX sys I X (.node true n)) : DeadX sys I X (itemExpr it) := by
+  intro hh
+  unfold itemExpr at hh
+  cases hh with
+  | and hall =>
+    have := hall (match it.child with | some n => .node true n | none => .lit .err)
+      (List.mem_cons_of_mem _ (List.mem_cons_self))
+    rw [h] at this
+    exact hd this
+
+theorem iterLoop_false (hN : NodeSpec sys I nodeF) :
+    ∀ (steps : Nat) (raw : List (Item N)) (pending : List (Option N)) (st : IterSt N),
+      Good (iterLoop nodeF active policy steps raw pending st) →
+      (active = true → ∃ V, st.vis = some V) →
+      (active = true → ∀ V, st.vis = some V → ∀ n, some n ∈ pending → n ∈ nodesJ V) →
+      ∀ X, (active = true → ∀ W, (iterLoop nodeF active policy steps raw pending st).vis = some W →
+            ∀ m ∈ nodesJ W, m ∈ X) →
+        (∀ it ∈ raw, DeadX sys I X (itemExpr it)) ∧
+        (∀ n, some n ∈ pending → DeadX sys I X (.node true n)) ∧
+        none ∉ pending ∧
+        (active = true → ∀ V, st.vis = some V → ∀ W, (iterLoop nodeF active policy steps raw pending st).vis = some W →
+          ∀ m ∈ nodesJ W, (m ∉ nodesJ V ∨ some m ∈ pending) → DeadX sys I X (sys.rule m)) := by
+  intro steps
+  induction steps with
+  | zero =>
+    intro raw pending st hg _ _ X _
+    have hfin : iterLoop nodeF active policy 0 raw pending st =
+        (if raw.isEmpty && pending.isEmpty then st else { st with acc := st.acc ++ [[VOut.err VErr.abort]] }) := rfl
+    rw [hfin] at hg ⊢
+    split at hg
+    · rename_i he
+      have hr : raw = [] := by cases raw with | nil => rfl | cons a l => simp at he
+      have hp : pending = [] := by cases pending with | nil => rfl | cons a l => simp at he
+      subst hr; subst hp
+      refine ⟨fun _ h => absurd h List.not_mem_nil, fun _ h => absurd h List.not_mem_nil, List.not_mem_nil, ?_⟩
+      intro _ V hV W hW m hm hor
+      simp only [List.isEmpty_nil, Bool.and_self, if_true] at hW
+      rw [hV] at hW; cases hW
+      rcases hor with h | h
+      · exact absurd hm h
+      · cases h
+    · have := hg.2 [VOut.err VErr.abort] (by simp)
+      simp at this
+  | succ steps ih =>
+    intro raw pending st hg hsome hmarked X hcov
+    have hk := iterStep_kind nodeF active policy raw pending st
+    rw [iterLoop_succ] at hg hcov ⊢
+    cases hstep : iterStep nodeF active policy raw pending st with
+    | none =>
+      rw [hstep] at hk
+      cases hk with
+      | done hp hr =>
+        subst hp; subst hr
+        refine ⟨fun _ h => absurd h List.not_mem_nil, fun _ h => absurd h List.not_mem_nil, List.not_mem_nil, ?_⟩
+        intro _ V hV W hW m hm hor
+        simp only at hW
+        rw [hV] at hW; cases hW
+        rcases hor with h | h
+        · exact absurd hm h
+        · cases h
+    | some r =>
+      obtain ⟨raw', pending', st'⟩ := r
+      rw [hstep] at hk hg hcov
+      simp only at hg hcov ⊢
+      have hmono := iterLoop_mono nodeF active policy (hN.hsh sys I) steps raw' pending' st'
+      have hg' : Good st' := Good.of_mono active hmono hg
+      -- the two pull moves share everything but the new pending child
+      have pullCase : ∀ (c : Option (Option N)) (x : List (Item N)), pull active raw st = (c, x, st') →
+          pending' = (match c with | some ch => pending ++ [ch] | none => pending) →
+          (c = none → raw' = []) → (c ≠ none → raw' = x) →
+          (∀ it ∈ raw, DeadX sys I X (itemExpr it)) ∧
+          (∀ n, some n ∈ pending → DeadX sys I X (.node true n)) ∧
+          none ∉ pending ∧
+          (active = true → ∀ V, st.vis = some V → ∀ W, (iterLoop nodeF active policy steps raw' pending' st').vis = some W →
+            ∀ m ∈ nodesJ W, (m ∉ nodesJ V ∨ some m ∈ pending) → DeadX sys I X (sys.rule m)) := by
+        intro c x hp hpend hrawN hrawS
+        obtain ⟨⟨bad, hb, hbad⟩, _, _, p4, _, _, p7, p8⟩ := pull_spec active raw st
+        rw [hp] at hb p4 p7 p8
+        simp only at hb p4 p7 p8
+        -- nothing bad was appended
+        have hbad0 : st'.acc = st.acc := by
+          cases bad with
+          | nil => simpa using hb
+          | cons b bs =>
+            have hb1 : b = [VOut.ok false true] := hbad b (by simp)
+            have := hg'.2 b (by rw [hb]; simp)
+            rw [hb1] at this; simp at this
+        -- preconditions of the rest of the loop
+        have hsome' : active = true → ∃ V, st'.vis = some V := by
+          intro ha
+          obtain ⟨V, hV⟩ := hsome ha
+          obtain ⟨V1, hV1, _⟩ := p4 ha V hV
+          exact ⟨V1, hV1⟩
+        have hmarked' : active = true → ∀ V, st'.vis = some V → ∀ n, some n ∈ pending' → n ∈ nodesJ V := by
+          intro ha V1 hV1 n hn
+          obtain ⟨V, hV⟩ := hsome ha
+          obtain ⟨V2, hV2, hs1, _, hnew⟩ := p4 ha V hV
+          rw [hV1] at hV2; cases hV2
+          rw [hpend] at hn
+          cases c with
+          | none => exact nodesJ_mono hs1 (hmarked ha V hV n hn)
+          | some ch =>
+            rcases List.mem_append.mp hn with h | h
+            · exact nodesJ_mono hs1 (hmarked ha V hV n h)
+            · simp at h; exact hnew n (by rw [h])
+        obtain ⟨i1, i2, i3, i4⟩ := ih raw' pending' st' hg hsome' hmarked' X hcov
+        have hpsub : ∀ y, y ∈ pending → y ∈ pending' := by
+          intro y hy; rw [hpend]
+          cases c with
+          | none => exact hy
+          | some ch => exact List.mem_append_left _ hy
+        refine ⟨?_, fun n hn => i2 n (hpsub _ hn), fun h => i3 (hpsub _ h), ?_⟩
+        · intro it hit
+          rcases p8 hbad0 hg'.1 it hit with h | ⟨h1, h2⟩ | h | ⟨ha, V1, n, hV1, hch, hn⟩
+          · cases c with
+            | none => rw [p7 rfl] at h; cases h
+            | some ch => exact i1 it (by rw [hrawS (by simp)]; exact h)
+          · cases c with
+            | none => cases h1
+            | some ch =>
+              have hch : ch = it.child := by simpa using h1
+              cases hcc : it.child with
+              | none =>
+                exfalso; apply i3; rw [hpend]; simp [hch, hcc]
+              | some n =>
+                exact dead_item_child sys I hcc (i2 n (by rw [hpend]; simp [hch, hcc]))
+          · exact dead_item_ff sys I h
+          · obtain ⟨_, _, _, hs4⟩ := hmono
+            obtain ⟨W, hW, hs⟩ := hs4 ha V1 hV1
+            exact dead_item_child sys I hch (DeadX.node_mem sys I (hcov ha W hW n (nodesJ_mono hs hn)))
+        · intro ha V hV W hW m hm hor
+          obtain ⟨V1, hV1, hs1, hnew1, _⟩ := p4 ha V hV
+          apply i4 ha V1 hV1 W hW m hm
+          rcases hor with h | h
+          · by_cases hm1 : m ∈ nodesJ V1
+            · rcases hnew1 m hm1 with h2 | h2
+              · exact absurd h2 h
+              · right
+                rw [hpend]
+                cases c with
+                | none => cases h2
+                | some ch =>
+                  have : ch = some m := by simpa using h2
+                  simp [this]
+            · exact Or.inl hm1
+          · exact Or.inr (hpsub _ h)
+      cases hk with
+      | pullSome c _ _ hp => exact pullCase (some c) raw' hp rfl (fun h => by cases h) (fun _ => rfl)
+      | pullNone x _ hp => exact pullCase none x hp rfl (fun _ => rfl) (fun h => absurd rfl h)
+      | graphErr _ hp =>
+        exfalso
+        have := hg'.2 [VOut.err VErr.other] (by simp)
+        simp at this
+      | popShared n _ ha hp =>
+        obtain ⟨V, hV⟩ := hsome ha
+        obtain ⟨V1, hV1, hs1, hF⟩ := hN.shared V n
+        rw [hV] at hg' hmono hg hcov ⊢
+        have hr : VOut.ok false false ∈ (nodeF (some V) n).1 := hg'.2 _ (by simp)
+        have hsome' : active = true → ∃ V0, ({ st with vis := (nodeF (some V) n).2, acc := st.acc ++ [(nodeF (some V) n).1] } : IterSt N).vis = some V0 :=
+          fun _ => ⟨V1, hV1⟩
+        have hmarked' : active = true → ∀ V0, ({ st with vis := (nodeF (some V) n).2, acc := st.acc ++ [(nodeF (some V) n).1] } : IterSt N).vis = some V0 →
+            ∀ k, some k ∈ pending' → k ∈ nodesJ V0 := by
+          intro _ V0 hV0 k hk
+          have : V0 = V1 := by
+            have h1 : (nodeF (some V) n).2 = some V0 := hV0
+            rw [hV1] at h1; cases h1; rfl
+          subst this
+          exact nodesJ_mono hs1 (hmarked ha V hV k (by rw [hp]; exact List.mem_cons_of_mem _ hk))
+        obtain ⟨i1, i2, i3, i4⟩ := ih raw pending' _ hg hsome' hmarked' X hcov
+        obtain ⟨_, _, _, hs4⟩ := hmono
+        obtain ⟨W, hW, hs2⟩ := hs4 ha V1 hV1
+        have hX1 : ∀ m ∈ nodesJ V1, m ∈ X := fun m hm => hcov ha W hW m (nodesJ_mono hs2 hm)
+        obtain ⟨hdn, hdm⟩ := hF hr X hX1
+        have hnV : n ∈ nodesJ V := hmarked ha V hV n (by rw [hp]; simp)
+        refine ⟨i1, ?_, ?_, ?_⟩
+        · intro k hk
+          rw [hp] at hk
+          rcases List.mem_cons.mp hk with h | h
+          · cases h
+            exact DeadX.node_mem sys I (hX1 n (nodesJ_mono hs1 hnV))
+          · exact i2 k h
+        · rw [hp]; intro h
+          rcases List.mem_cons.mp h with h | h
+          · cases h
+          · exact i3 h
+        · intro _ V0 hV0 W2 hW2 m hm hor
+          have hVV : V0 = V := by cases hV0; rfl
+          subst hVV
+          have hWW : W2 = W := by rw [hW] at hW2; cases hW2; rfl
+          subst hWW
+          rw [hp] at hor
+          by_cases hmn : m = n
+          · subst hmn; exact hdn
+          · by_cases hm1 : m ∈ nodesJ V1
+            · rcases hor with h | h
+              · exact hdm m hm1 h
+              · rcases List.mem_cons.mp h with h | h
+                · cases h; exact absurd rfl hmn
+                · exact i4 ha V1 hV1 W2 hW m hm (Or.inr h)
+            · exact i4 ha V1 hV1 W2 hW m hm (Or.inl hm1)
+      | popFresh n _ ha hp =>
+        have hr : VOut.ok false false ∈ (nodeF none n).1 := hg'.2 _ (by simp)
+        have hnp : ¬ P sys I [] n := hN.fresh n hr
+        have hcontra : ∀ {α : Prop}, active = true → α := fun h => by rw [ha] at h; cases h
+        obtain ⟨i1, i2, i3, _⟩ := ih raw pending' _ hg (fun h => hcontra h) (fun h => hcontra h) X hcov
+        refine ⟨i1, ?_, ?_, fun h => hcontra h⟩
+        · intro k hk
+          rw [hp] at hk
+          rcases List.mem_cons.mp hk with h | h
+          · cases h
+            intro hh
+            cases hh with
+            | node hn => exact hnp hn.1
+          · exact i2 k h
+        · rw [hp]; intro h
+          rcases List.mem_cons.mp h with h | h
+          · cases h
+          · exact i3 h
+
+end loop
+
+/-! ### the evaluator -/
+
+section main
+variable (rule : Bool → N → VExpr N) (seed : N → Option String) (look : Nat → Nat → Bool)
+
+/-- the closure `node` of `evalG` at a given fuel -/
+def nodeG (fuel : Nat) : Option (Vis N) → N → List VOut × Option (Vis N) := fun vis n =>
+  match vis with
+  | some V => evalG rule seed look fuel (some V) (rule false n)
+  | none => evalG rule seed look fuel ((seed n).map (fun k => [(k, n, true)])) (rule true n)
+
+theorem evalG_zero (vis : Option (Vis N)) (e : VExpr N) : evalG rule seed look 0 vis e = ([.err .abort], vis) := rfl
+theorem evalG_lit (fuel : Nat) (vis : Option (Vis N)) (v : Leaf) :
+    evalG rule seed look (fuel + 1) vis (.lit v) = ([leafOut v], vis) := rfl
+theorem evalG_fail (fuel : Nat) (vis : Option (Vis N)) (k : VErr) :
+    evalG rule seed look (fuel + 1) vis (.fail k) = ([.err k], vis) := rfl
+theorem evalG_sub (fuel : Nat) (vis : Option (Vis N)) (share : Bool) (n : N) :
+    evalG rule seed look (fuel + 1) vis (.sub share n) =
+      (match (if share then vis else none) with
+       | some V => nodeG rule seed look fuel (some (("", n, true) :: V)) n
+       | none => ((nodeG rule seed look fuel none n).1, vis)) := rfl
+theorem evalG_gate (fuel : Nat) (vis : Option (Vis N)) (v : Leaf) (e : VExpr N) :
+    evalG rule seed look (fuel + 1) vis (.gate v e) =
+      (match v with
+       | .tt => ([.ok true false], vis)
+       | .ff => evalG rule seed look fuel vis e
+       | _ => ([.err .cond], vis)) := rfl
+theorem evalG_or (fuel : Nat) (vis : Option (Vis N)) (es : List (VExpr N)) :
+    evalG rule seed look (fuel + 1) vis (.or es) =
+      (unionSet (es.foldl (fun (acc : List (List VOut) × Option (Vis N)) e =>
+          (acc.1 ++ [(evalG rule seed look fuel acc.2 e).1], (evalG rule seed look fuel acc.2 e).2)) ([], vis)).1,
+       (es.foldl (fun (acc : List (List VOut) × Option (Vis N)) e =>
+          (acc.1 ++ [(evalG rule seed look fuel acc.2 e).1], (evalG rule seed look fuel acc.2 e).2)) ([], vis)).2) := rfl
+theorem evalG_or2 (fuel : Nat) (vis : Option (Vis N)) (a b : VExpr N) :
+    evalG rule seed look (fuel + 1) vis (.or2 a b) =
+      (union2Set (evalG rule seed look fuel vis a).1 (evalG rule seed look fuel (evalG rule seed look fuel vis a).2 b).1,
+       (evalG rule seed look fuel (evalG rule seed look fuel vis a).2 b).2) := rfl
+theorem evalG_and (fuel : Nat) (vis : Option (Vis N)) (es : List (VExpr N)) :
+    evalG rule seed look (fuel + 1) vis (.and es) =
+      (interSet (es.map (fun e => (evalG rule seed look fuel none e).1)), vis) := rfl
+theorem evalG_diff (fuel : Nat) (vis : Option (Vis N)) (b s : VExpr N) :
+    evalG rule seed look (fuel + 1) vis (.diff b s) =
+      (exclSet (evalG rule seed look fuel none b).1 (some (evalG rule seed look fuel none s).1), vis) := rfl
+theorem evalG_diff1 (fuel : Nat) (vis : Option (Vis N)) (b : VExpr N) :
+    evalG rule seed look (fuel + 1) vis (.diff1 b) = (exclSet (evalG rule seed look fuel none b).1 none, vis) := rfl
+theorem evalG_iter (fuel : Nat) (vis : Option (Vis N)) (share : Bool) (items : List (Item N)) :
+    evalG rule seed look (fuel + 1) vis (.iter share items) =
+      (unionSet ((iterLoop (nodeG rule seed look fuel) (share && vis.isSome) look (2 * items.length + 2) items [] { vis := vis }).acc ++
+          iterTail (iterLoop (nodeG rule seed look fuel) (share && vis.isSome) look (2 * items.length + 2) items [] { vis := vis })),
+       if (share && vis.isSome) = true then
+         (iterLoop (nodeG rule seed look fuel) (share && vis.isSome) look (2 * items.length + 2) items [] { vis := vis }).vis
+       else vis) := rfl
+
+/-- what an evaluation claims -/
+structure Spec (vis : Option (Vis N)) (e : Expr N) (r : List VOut × Option (Vis N)) : Prop where
+  tru : VOut.ok true false ∈ r.1 → HoldsD sys I [] e
+  fresh : vis = none → r.2 = none ∧ (VOut.ok false false ∈ r.1 → ¬ HoldsP sys I [] e)
+  shared : ∀ V, vis = some V → ∃ W, r.2 = some W ∧ SubVis V W ∧
+    (VOut.ok false false ∈ r.1 → ∀ X, (∀ m ∈ nodesJ W, m ∈ X) →
+      DeadX sys I X e ∧ ∀ m ∈ nodesJ W, m ∉ nodesJ V → DeadX sys I X (sys.rule m))
+
+theorem dead_or {X : List N} {es : List (Expr N)} (h : ∀ e ∈ es, DeadX sys I X e) : DeadX sys I X (.or es) := by
+  intro hh
+  cases hh with
+  | or hm he => exact h _ hm he
+
+theorem dead_and_of_mem {X : List N} {es : List (Expr N)} {e : Expr N} (hm : e ∈ es) (h : DeadX sys I X e) :
+    DeadX sys I X (.and es) := by
+  intro hh
+  cases hh with
+  | and hall => exact h (hall e hm)
+
+theorem nodesJ_cons_true (k : String) (n : N) (V : Vis N) (m : N) :
+    m ∈ nodesJ ((k, n, true) :: V) ↔ m = n ∨ m ∈ nodesJ V := by
+  rw [mem_nodesJ, mem_nodesJ]
+  constructor
+  · rintro ⟨k', h⟩
+    rcases List.mem_cons.mp h with h | h
+    · simp at h; exact Or.inl h.2
+    · exact Or.inr ⟨k', h⟩
+  · rintro (h | ⟨k', h⟩)
+    · subst h; exact ⟨k, by simp⟩
+    · exact ⟨k', List.mem_cons_of_mem _ h⟩
+
+/-- a claim made without a shared set is in particular a claim under any shared set that is left untouched -/
+theorem spec_of_fresh {vis : Option (Vis N)} {e : Expr N} {outs : List VOut}
+    (ht : VOut.ok true false ∈ outs → HoldsD sys I [] e) (hf : VOut.ok false false ∈ outs → ¬ HoldsP sys I [] e) :
+    Spec sys I vis e (outs, vis) := by
+  refine ⟨ht, fun h => ⟨h, hf⟩, ?_⟩
+  intro V hV
+  refine ⟨V, hV, SubVis.refl V, ?_⟩
+  intro hF X _
+  exact ⟨DeadX.of_global sys I (hf hF), fun m hm hn => absurd hm hn⟩
+
+theorem nodeG_spec (hrule : ∀ b n, toExpr (rule b n) = sys.rule n) (fuel : Nat)
+    (ih : ∀ vis e, Spec sys I vis (toExpr e) (evalG rule seed look fuel vis e)) :
+    NodeSpec sys I (nodeG rule seed look fuel) := by
+  refine ⟨?_, ?_, ?_⟩
+  · intro vis n ht
+    have key : HoldsD sys I [] (sys.rule n) := by
+      cases vis with
+      | some V => have := (ih (some V) (rule false n)).tru ht; rwa [hrule] at this
+      | none => have := (ih _ (rule true n)).tru ht; rwa [hrule] at this
+    exact lfp_closed sys leafD I.negD [] n List.not_mem_nil key
+  · intro n hF
+    show ¬ P sys I [] n
+    have hF' : VOut.ok false false ∈ (evalG rule seed look fuel ((seed n).map (fun k => [(k, n, true)])) (rule true n)).1 := hF
+    cases hs : seed n with
+    | none =>
+      rw [hs] at hF'
+      have := ((ih none (rule true n)).fresh rfl).2 hF'
+      rw [hrule] at this
+      exact fun hp => this (lfp_unfold sys leafP I.negP [] n hp).2
+    | some k =>
+      rw [hs] at hF'
+      obtain ⟨W, _, hsub, hcl⟩ := (ih (some [(k, n, true)]) (rule true n)).shared _ rfl
+      obtain ⟨h1, h2⟩ := hcl hF' (nodesJ W) (fun _ h => h)
+      rw [hrule] at h1
+      have hn : n ∈ nodesJ W := nodesJ_mono hsub (mem_nodesJ.mpr ⟨k, by simp⟩)
+      refine closure sys I (nodesJ W) ?_ n hn
+      intro m hm
+      by_cases hmn : m = n
+      · subst hmn; exact h1
+      · apply h2 m hm
+        intro hm0
+        rw [nodesJ_cons_true] at hm0
+        rcases hm0 with h | h
+        · exact hmn h
+        · simp [nodesJ] at h
+  · intro V n
+    obtain ⟨W, hW, hsub, hcl⟩ := (ih (some V) (rule false n)).shared V rfl
+    refine ⟨W, hW, hsub, ?_⟩
+    intro hF X hX
+    have := hcl hF X hX
+    rw [hrule] at this
+    exact this
+
+/-- the sequential union of `ResolveUnionEdges` -/
+theorem orFold_spec (fuel : Nat)
+    (ih : ∀ vis e, Spec sys I vis (toExpr e) (evalG rule seed look fuel vis e)) :
+    ∀ (es : List (VExpr N)) (acc : List (List VOut)) (vis : Option (Vis N)),
+      ∃ outs, (es.foldl (fun (acc : List (List VOut) × Option (Vis N)) e =>
+          (acc.1 ++ [(evalG rule seed look fuel acc.2 e).1], (evalG rule seed look fuel acc.2 e).2)) (acc, vis)).1 = acc ++ outs ∧
+        ((∃ c ∈ outs, VOut.ok true false ∈ c) → ∃ e ∈ es, HoldsD sys I [] (toExpr e)) ∧
+        (vis = none → (es.foldl (fun (acc : List (List VOut) × Option (Vis N)) e =>
+          (acc.1 ++ [(evalG rule seed look fuel acc.2 e).1], (evalG rule seed look fuel acc.2 e).2)) (acc, vis)).2 = none ∧
+          ((∀ c ∈ outs, VOut.ok false false ∈ c) → ∀ e ∈ es, ¬ HoldsP sys I [] (toExpr e))) ∧
+        (∀ V, vis = some V → ∃ W, (es.foldl (fun (acc : List (List VOut) × Option (Vis N)) e =>
+          (acc.1 ++ [(evalG rule seed look fuel acc.2 e).1], (evalG rule seed look fuel acc.2 e).2)) (acc, vis)).2 = some W ∧ SubVis V W ∧
+          ((∀ c ∈ outs, VOut.ok false false ∈ c) → ∀ X, (∀ m ∈ nodesJ W, m ∈ X) →
+            (∀ e ∈ es, DeadX sys I X (toExpr e)) ∧ ∀ m ∈ nodesJ W, m ∉ nodesJ V → DeadX sys I X (sys.rule m))) := by
+  intro es
+  induction es with
+  | nil =>
+    intro acc vis
+    refine ⟨[], by simp, ?_, fun h => ⟨h, fun _ _ he => absurd he List.not_mem_nil⟩, ?_⟩
+    · rintro ⟨c, hc, _⟩; exact absurd hc List.not_mem_nil
+    · intro V hV
+      exact ⟨V, hV, SubVis.refl V, fun _ X _ => ⟨fun _ he => absurd he List.not_mem_nil, fun m hm hn => absurd hm hn⟩⟩
+  | cons e es ihes =>
+    intro acc vis
+    simp only [List.foldl_cons]
+    have he := ih vis e
+    obtain ⟨outs, ho, t2, f2, s2⟩ := ihes (acc ++ [(evalG rule seed look fuel vis e).1]) (evalG rule seed look fuel vis e).2
+    refine ⟨(evalG rule seed look fuel vis e).1 :: outs, by rw [ho]; simp, ?_, ?_, ?_⟩
+    · rintro ⟨c, hcm, ht⟩
+      rcases List.mem_cons.mp hcm with rfl | hcm
+      · exact ⟨e, by simp, he.tru ht⟩
+      · obtain ⟨e', hm, hh⟩ := t2 ⟨c, hcm, ht⟩
+        exact ⟨e', List.mem_cons_of_mem _ hm, hh⟩
+    · intro hv
+      obtain ⟨h1, h2⟩ := he.fresh hv
+      obtain ⟨h3, h4⟩ := f2 h1
+      refine ⟨h3, ?_⟩
+      intro hall e' he'
+      rcases List.mem_cons.mp he' with rfl | he'
+      · exact h2 (hall _ (by simp))
+      · exact h4 (fun c hcm => hall c (List.mem_cons_of_mem _ hcm)) e' he'
+    · intro V hV
+      obtain ⟨W1, hW1, hs1, hcl1⟩ := he.shared V hV
+      obtain ⟨W, hW, hs2, hcl2⟩ := s2 W1 hW1
+      refine ⟨W, hW, hs1.trans hs2, ?_⟩
+      intro hall X hX
+      have hX1 : ∀ m ∈ nodesJ W1, m ∈ X := fun m hm => hX m (nodesJ_mono hs2 hm)
+      obtain ⟨d1, n1⟩ := hcl1 (hall _ (by simp)) X hX1
+      obtain ⟨d2, n2⟩ := hcl2 (fun c hcm => hall c (List.mem_cons_of_mem _ hcm)) X hX
+      refine ⟨?_, ?_⟩
+      · intro e' he'
+        rcases List.mem_cons.mp he' with rfl | he'
+        · exact d1
+        · exact d2 e' he'
+      · intro m hm hn
+        by_cases hm1 : m ∈ nodesJ W1
+        · exact n1 m hm1 hn
+        · exact n2 m hm hm1
+
+/-- **Soundness of the evaluation with a shared visited set.**  By induction on the fuel, for every
+expression, under a fresh or a shared set. -/
+theorem evalG_spec (hrule : ∀ b n, toExpr (rule b n) = sys.rule n) (hc : Coherent sys I) : ∀ (fuel : Nat) (vis : Option (Vis N)) (e : VExpr N),
+    Spec sys I vis (toExpr e) (evalG rule seed look fuel vis e) := by
+  intro fuel
+  induction fuel with
+  | zero =>
+    intro vis e
+    rw [evalG_zero]
+    exact spec_of_fresh sys I (fun h => by simp at h) (fun h => by simp at h)
+  | succ fuel ih =>
+    intro vis e
+    have hN := nodeG_spec sys I rule seed look hrule fuel ih
+    cases e with
+    | lit v =>
+      rw [evalG_lit]
+      refine spec_of_fresh sys I ?_ ?_
+      · intro h
+        cases v <;> simp [leafOut] at h
+        exact .lit rfl
+      · intro h hp
+        cases v <;> simp [leafOut] at h
+        cases hp with
+        | lit hv => exact hv rfl
+    | fail k =>
+      rw [evalG_fail]
+      exact spec_of_fresh sys I (fun h => by simp at h) (fun h => by simp at h)
+    | sub share n =>
+      rw [evalG_sub]
+      cases hsv : (if share then vis else none) with
+      | some V =>
+        have hvis : vis = some V := by
+          cases share with
+          | true => simpa using hsv
+          | false => simp at hsv
+        subst hvis
+        simp only
+        obtain ⟨W, hW, hsub, hcl⟩ := hN.shared (("", n, true) :: V) n
+        refine ⟨fun ht => .node (hN.tru _ n ht), fun h => by cases h, ?_⟩
+        intro V0 hV0
+        cases hV0
+        refine ⟨W, hW, fun x hx => hsub x (List.mem_cons_of_mem _ hx), ?_⟩
+        intro hF X hX
+        obtain ⟨d1, d2⟩ := hcl hF X hX
+        have hnW : n ∈ nodesJ W := nodesJ_mono hsub ((nodesJ_cons_true "" n V n).mpr (Or.inl rfl))
+        refine ⟨DeadX.node_mem sys I (hX n hnW), ?_⟩
+        intro m hm hn
+        by_cases hmn : m = n
+        · subst hmn; exact d1
+        · apply d2 m hm
+          intro hm0
+          rcases (nodesJ_cons_true "" n V m).mp hm0 with h | h
+          · exact hmn h
+          · exact hn h
+      | none =>
+        simp only
+        refine spec_of_fresh sys I (fun ht => .node (hN.tru _ n ht)) ?_
+        intro hF hp
+        cases hp with
+        | node hn => exact hN.fresh n hF hn
+    | gate v e =>
+      rw [evalG_gate]
+      cases v with
+      | tt =>
+        simp only
+        refine spec_of_fresh sys I (fun _ => ?_) (fun h => by simp at h)
+        simp only [toExpr]
+        exact .or (List.mem_cons_self) (.lit rfl)
+      | ff =>
+        simp only
+        have he := ih vis e
+        refine ⟨?_, ?_, ?_⟩
+        · intro ht
+          simp only [toExpr]
+          exact .or (List.mem_cons_of_mem _ List.mem_cons_self) (he.tru ht)
+        · intro hv
+          obtain ⟨h1, h2⟩ := he.fresh hv
+          refine ⟨h1, fun hF hp => ?_⟩
+          simp only [toExpr] at hp
+          cases hp with
+          | or hm hh =>
+            simp at hm
+            rcases hm with rfl | rfl
+            · cases hh with | lit hv => exact hv rfl
+            · exact h2 hF hh
+        · intro V hV
+          obtain ⟨W, hW, hsub, hcl⟩ := he.shared V hV
+          refine ⟨W, hW, hsub, fun hF X hX => ?_⟩
+          obtain ⟨d1, d2⟩ := hcl hF X hX
+          refine ⟨?_, d2⟩
+          simp only [toExpr]
+          apply dead_or
+          intro e' he'
+          simp at he'
+          rcases he' with rfl | rfl
+          · intro hh; cases hh with | lit hv => exact hv rfl
+          · exact d1
+      | err => simp only; exact spec_of_fresh sys I (fun h => by simp at h) (fun h => by simp at h)
+      | errSw => simp only; exact spec_of_fresh sys I (fun h => by simp at h) (fun h => by simp at h)
+    | iter share items =>
+      rw [evalG_iter]
+      simp only [toExpr]
+      generalize hfin : iterLoop (nodeG rule seed look fuel) (share && vis.isSome) look (2 * items.length + 2) items [] { vis := vis } = fin
+      have hmono := iterLoop_mono (nodeG rule seed look fuel) (share && vis.isSome) look (hN.hsh sys I)
+        (2 * items.length + 2) items [] { vis := vis }
+      rw [hfin] at hmono
+      -- `true` comes from a tuple that passed and whose sub-problem holds
+      have htrue : VOut.ok true false ∈ unionSet (fin.acc ++ iterTail fin) → HoldsD sys I [] (.or (items.map itemExpr)) := by
+        intro ht
+        obtain ⟨c, hcm, hct⟩ := unionSet_true ht
+        rcases List.mem_append.mp hcm with hcm | hcm
+        · have := iterLoop_true sys I (nodeG rule seed look fuel) (share && vis.isSome) look hN
+            (fun n => ∃ it ∈ items, it.cond = .tt ∧ it.child = some n) (2 * items.length + 2) items [] { vis := vis }
+            (fun it hit hcd n hch => ⟨it, hit, hcd, hch⟩) (fun n hn => absurd hn List.not_mem_nil) c (by rw [hfin]; exact hcm) hct
+          rcases this with h | ⟨n, ⟨it, hit, hcd, hch⟩, hD⟩
+          · exact absurd h List.not_mem_nil
+          · refine .or (List.mem_map.mpr ⟨it, hit, rfl⟩) ?_
+            unfold itemExpr
+            rw [hcd, hch]
+            refine .and ?_
+            intro e' he'
+            simp at he'
+            rcases he' with rfl | rfl
+            · exact .lit rfl
+            · exact .node hD
+        · unfold iterTail at hcm
+          split at hcm
+          · split at hcm <;> (simp at hcm; subst hcm; simp at hct)
+          · exact absurd hcm List.not_mem_nil
+      -- an untainted `false`: no error was remembered, every result is an untainted `false`
+      have hgood : VOut.ok false false ∈ unionSet (fin.acc ++ iterTail fin) → Good fin := by
+        intro hF
+        have hall := unionSet_false hF
+        refine ⟨?_, fun s hs => hall s (List.mem_append_left _ hs)⟩
+        cases hle : fin.lastErr with
+        | false => rfl
+        | true =>
+          exfalso
+          cases hov : fin.onceValid with
+          | true =>
+            have := hall [VOut.ok false true] (List.mem_append_right _ (by simp [iterTail, hle, hov]))
+            simp at this
+          | false =>
+            have := hall [VOut.err VErr.cond] (List.mem_append_right _ (by simp [iterTail, hle, hov]))
+            simp at this
+      cases hact : (share && vis.isSome) with
+      | false =>
+        rw [hact] at hfin hmono
+        simp only [Bool.false_eq_true, if_false]
+        have hfalse : VOut.ok false false ∈ unionSet (fin.acc ++ iterTail fin) → ∀ X, ∀ it ∈ items, DeadX sys I X (itemExpr it) := by
+          intro hF X
+          have := iterLoop_false sys I (nodeG rule seed look fuel) false look hN (2 * items.length + 2) items [] { vis := vis }
+            (by rw [hfin]; exact hgood hF) (fun h => by cases h) (fun h => by cases h) X (fun h => by cases h)
+          exact this.1
+        refine ⟨htrue, ?_, ?_⟩
+        · intro hv
+          refine ⟨hv, fun hF => dead_of_cand_nil sys I (dead_or sys I ?_)⟩
+          intro e' he'
+          obtain ⟨it, hit, rfl⟩ := List.mem_map.mp he'
+          exact hfalse hF [] it hit
+        · intro V hV
+          refine ⟨V, hV, SubVis.refl V, fun hF X _ => ⟨dead_or sys I ?_, fun m hm hn => absurd hm hn⟩⟩
+          intro e' he'
+          obtain ⟨it, hit, rfl⟩ := List.mem_map.mp he'
+          exact hfalse hF X it hit
+      | true =>
+        rw [hact] at hfin hmono
+        simp only [if_true]
+        have hsome : ∃ V, vis = some V := by
+          cases vis with
+          | none => simp at hact
+          | some V => exact ⟨V, rfl⟩
+        obtain ⟨V, hV⟩ := hsome
+        subst hV
+        obtain ⟨_, _, _, hs4⟩ := hmono
+        obtain ⟨W, hW, hsub⟩ := hs4 rfl V rfl
+        refine ⟨htrue, fun h => by cases h, ?_⟩
+        intro V0 hV0
+        cases hV0
+        refine ⟨W, hW, hsub, ?_⟩
+        intro hF X hX
+        have := iterLoop_false sys I (nodeG rule seed look fuel) true look hN (2 * items.length + 2) items [] { vis := some V }
+          (by rw [hfin]; exact hgood hF) (fun _ => ⟨V, rfl⟩) (fun _ _ _ n hn => absurd hn List.not_mem_nil) X
+          (by intro _ W2 hW2; rw [hfin, hW] at hW2; cases hW2; exact hX)
+        obtain ⟨d1, _, _, d4⟩ := this
+        refine ⟨dead_or sys I ?_, ?_⟩
+        · intro e' he'
+          obtain ⟨it, hit, rfl⟩ := List.mem_map.mp he'
+          exact d1 it hit
+        · intro m hm hn
+          exact d4 rfl V rfl W (by rw [hfin]; exact hW) m hm (Or.inl hn)
+    | or es =>
+      rw [evalG_or]
+      simp only [toExpr]
+      obtain ⟨outs, ho, t2, f2, s2⟩ := orFold_spec sys I rule seed look fuel ih es [] vis
+      simp only [List.nil_append] at ho
+      rw [ho]
+      refine ⟨?_, ?_, ?_⟩
+      · intro ht
+        obtain ⟨c, hcm, hct⟩ := unionSet_true ht
+        obtain ⟨e', hm, hh⟩ := t2 ⟨c, hcm, hct⟩
+        exact .or (List.mem_map.mpr ⟨e', hm, rfl⟩) hh
+      · intro hv
+        obtain ⟨h1, h2⟩ := f2 hv
+        refine ⟨h1, fun hF hp => ?_⟩
+        cases hp with
+        | or hm hh =>
+          obtain ⟨e', he', rfl⟩ := List.mem_map.mp hm
+          exact h2 (unionSet_false hF) e' he' hh
+      · intro V hV
+        obtain ⟨W, hW, hsub, hcl⟩ := s2 V hV
+        refine ⟨W, hW, hsub, fun hF X hX => ?_⟩
+        obtain ⟨d1, d2⟩ := hcl (unionSet_false hF) X hX
+        refine ⟨dead_or sys I ?_, d2⟩
+        intro e' he'
+        obtain ⟨e0, he0, rfl⟩ := List.mem_map.mp he'
+        exact d1 e0 he0
+    | or2 a b =>
+      rw [evalG_or2]
+      simp only [toExpr]
+      have ha := ih vis a
+      have hb := ih (evalG rule seed look fuel vis a).2 b
+      refine ⟨?_, ?_, ?_⟩
+      · intro ht
+        rcases union2Set_true ht with h | h
+        · exact .or List.mem_cons_self (ha.tru h)
+        · exact .or (List.mem_cons_of_mem _ List.mem_cons_self) (hb.tru h)
+      · intro hv
+        obtain ⟨h1, h2⟩ := ha.fresh hv
+        obtain ⟨h3, h4⟩ := hb.fresh h1
+        refine ⟨h3, fun hF hp => ?_⟩
+        obtain ⟨fa, fb⟩ := union2Set_false hF
+        cases hp with
+        | or hm hh =>
+          simp at hm
+          rcases hm with rfl | rfl
+          · exact h2 fa hh
+          · exact h4 fb hh
+      · intro V hV
+        obtain ⟨W1, hW1, hs1, hcl1⟩ := ha.shared V hV
+        obtain ⟨W, hW, hs2, hcl2⟩ := hb.shared W1 hW1
+        refine ⟨W, hW, hs1.trans hs2, fun hF X hX => ?_⟩
+        obtain ⟨fa, fb⟩ := union2Set_false hF
+        obtain ⟨d1, n1⟩ := hcl1 fa X (fun m hm => hX m (nodesJ_mono hs2 hm))
+        obtain ⟨d2, n2⟩ := hcl2 fb X hX
+        refine ⟨dead_or sys I ?_, ?_⟩
+        · intro e' he'
+          simp at he'
+          rcases he' with rfl | rfl
+          · exact d1
+          · exact d2
+        · intro m hm hn
+          by_cases hm1 : m ∈ nodesJ W1
+          · exact n1 m hm1 hn
+          · exact n2 m hm hm1
+    | and es =>
+      rw [evalG_and]
+      simp only [toExpr]
+      refine spec_of_fresh sys I ?_ ?_
+      · intro ht
+        have hall := interSet_true ht
+        refine .and ?_
+        intro e' he'
+        obtain ⟨e0, he0, rfl⟩ := List.mem_map.mp he'
+        exact (ih none e0).tru (hall _ (List.mem_map.mpr ⟨e0, he0, rfl⟩))
+      · intro hF hp
+        obtain ⟨c, hcm, hcf⟩ := interSet_false hF
+        obtain ⟨e0, he0, rfl⟩ := List.mem_map.mp hcm
+        cases hp with
+        | and hall => exact ((ih none e0).fresh rfl).2 hcf (hall _ (List.mem_map.mpr ⟨e0, he0, rfl⟩))
+    | diff b s =>
+      rw [evalG_diff]
+      simp only [toExpr]
+      refine spec_of_fresh sys I ?_ ?_
+      · intro ht
+        obtain ⟨hb, hs⟩ := exclSet_true ht
+        have hsF := ((ih none s).fresh rfl).2 (hs _ rfl)
+        exact .diff ((ih none b).tru hb) (((hc (toExpr s)).1).mpr hsF)
+      · intro hF hp
+        cases hp with
+        | diff hb hn =>
+          rcases exclSet_false hF with h | ⟨l, hl, h⟩
+          · exact ((ih none b).fresh rfl).2 h hb
+          · cases hl
+            exact ((hc (toExpr s)).2.mp hn) ((ih none s).tru h)
+    | diff1 b =>
+      rw [evalG_diff1]
+      simp only [toExpr]
+      refine spec_of_fresh sys I ?_ ?_
+      · intro ht
+        exact (ih none b).tru (exclSet_true ht).1
+      · intro hF
+        rcases exclSet_false hF with h | ⟨l, hl, _⟩
+        · exact ((ih none b).fresh rfl).2 h
+        · cases hl
+
+/-- **Top level** (`ResolveCheck`: no visited set yet): an untainted decision is the semantics. -/
+theorem evalG_root_sound (hrule : ∀ b n, toExpr (rule b n) = sys.rule n) (hc : Coherent sys I) (fuel : Nat) (e : VExpr N) :
+    (VOut.ok true false ∈ (evalG rule seed look fuel none e).1 → HoldsD sys I [] (toExpr e)) ∧
+    (VOut.ok false false ∈ (evalG rule seed look fuel none e).1 → ¬ HoldsP sys I [] (toExpr e)) := by
+  have h := evalG_spec sys I rule seed look hrule hc fuel none e
+  exact ⟨h.tru, (h.fresh rfl).2⟩
+
+end main
+
 end
 
 end OpenFGAVerif.DfsG
